@@ -17,7 +17,8 @@ MINIMISE_OPS = True
 
 EVIDENCE = {
     'rule': 'Each run registers up to 12 distinct (port, port mask, channel, channel mask, callback) patterns, feeds up '
-            'to 40 packets (all 256 header bytes are covered over a batch) and lets scripted callbacks add / remove '
+            'to 40 packets (all 256 header bytes are covered over a batch; the callbacks are plain functions, '
+            'functools.partial objects, callable instances and bound methods) and lets scripted callbacks add / remove '
             'registrations (themselves, earlier and later ones) or raise while a packet is being dispatched; an independent '
             'matcher and the registration time line decide must / may / must-not per (packet, registration).',
     'directed': 'two callbacks on one pattern where the first unregisters itself / the second / raises, at every list '
